@@ -5,7 +5,7 @@
 (* never discard a candidate that meets the cutoff) and the model's result *)
 (* is accepted by the Tier-A characterisation `CloseMatchesA`.             *)
 (***************************************************************************)
-EXTENDS CloseMatches, CloseMatchesA, TLC
+EXTENDS CloseMatches, CloseMatchesA, TLC, Json
 
 CONSTANTS MaxLen, Alpha
 VARIABLES word, cands, n, cutoff
@@ -24,4 +24,7 @@ FiltersAreUpperBounds ==
 ResultOk ==
   CloseMatchViol([panic |-> FALSE, word |-> word, cands |-> cands, n |-> n, p |-> cutoff[1], q |-> cutoff[2],
                   result |-> CloseMatchesModel(word, cands, n, cutoff)]) = {}
+DumpInv ==
+   PrintT(<<"REPLAY", ToJson([kind |-> "closematch", word |-> word, cands |-> cands, n |-> n, p |-> cutoff[1], q |-> cutoff[2],
+                              expected |-> CloseMatchesModel(word, cands, n, cutoff)])>>)
 =============================================================================
